@@ -100,7 +100,7 @@ func VerifH_C01_tls_unmarshal_session_state() {
 func VerifH_C01_tls_unmarshal_client_hello() {
 	hi := 54
 	if vr.Tier() == 1 {
-		hi = 60
+		hi = 56 // 60 exceeds 200000 paths
 	}
 	in := c01Sizes(append([]int{0, 5, 38, 39, 40}, c01Range(41, hi)...)...)
 	var m clientHelloMsg
